@@ -264,6 +264,37 @@ Section Generic.
     end.
 End Generic.
 
+(* ------------------------------------------------------------------ *)
+(* tx_input_set.go: BudgetInputSet budget / wallet-input top-up        *)
+
+Record binp := mkB { b_value : Z; b_budget : Z; b_req : bool }.
+
+(* NeedWalletInput: budgetNeeded (extraBudget + budgets of required-output
+   inputs) vs budgetBorrowable (value - budget of the other inputs) *)
+Definition budget_needed (extra : Z) (l : list binp) : Z :=
+  extra + sumZ (map (fun i => if b_req i then b_budget i else 0) l).
+Definition budget_borrowable (l : list binp) : Z :=
+  sumZ (map (fun i => if b_req i then 0 else b_value i - b_budget i) l).
+Definition need_wallet_input (extra : Z) (l : list binp) : bool :=
+  budget_borrowable l <? budget_needed extra l.
+
+(* Budget() and inputAmts()'s spendable amount *)
+Definition set_budget (extra : Z) (l : list binp) : Z := sumZ (map b_budget l) + extra.
+Definition spendable (l : list binp) : Z :=
+  sumZ (map (fun i => if b_req i then 0 else b_value i) l).
+
+Inductive topup := TopSatisfied | TopExhausted | TopNotEnoughInputs.
+
+(* AddWalletInputs over the wallet utxo values sorted ascending: wallet
+   inputs carry budget 0 and no required output *)
+Fixpoint add_wallet_inputs (extra : Z) (l : list binp) (utxos : list Z) : list binp * topup :=
+  match utxos with
+  | [] => (l, if existsb (fun i => negb (b_req i)) l then TopExhausted else TopNotEnoughInputs)
+  | u :: r =>
+    let l' := l ++ [mkB u 0 false] in
+    if need_wallet_input extra l' then add_wallet_inputs extra l' r else (l', TopSatisfied)
+  end.
+
 (* concrete instances used by Exec.v and Props.v *)
 Definition new_ff64 := new_ff f_scale_delta.
 Definition rate_at_pos64 := rate_at_pos f_scale_pos.
